@@ -15,8 +15,11 @@ Fixpoint wf (v : value) : Prop :=
       NoDup (keys es) /\ Forall unmarked (keys es) /\
       (fix go (es : list entry) : Prop :=
          match es with [] => True | (_, x, _, _) :: es' => wf x /\ go es' end) es
-  | VSeq l | VList l =>
+  | VSeq l =>
       (fix go (l : list value) : Prop := match l with [] => True | x :: l' => wf x /\ go l' end) l
+  | VList l =>      (* layers are never ValueLists themselves: insert_impl splices *)
+      (fix go (l : list value) : Prop :=
+         match l with [] => True | x :: l' => (wf x /\ is_vlist x = false) /\ go l' end) l
   | _ => True
   end.
 
@@ -54,7 +57,7 @@ Proof.
   - induction H3 as [|[[[k x] c] o] es Hx H IH]; [exact I | split; [exact Hx | exact IH]].
 Qed.
 
-Lemma wf_list_iff l : wf (VList l) <-> Forall wf l.
+Lemma wf_list_iff l : wf (VList l) <-> Forall (fun x => wf x /\ is_vlist x = false) l.
 Proof.
   cbn [wf]. split.
   - induction l as [|x l IH]; intros H; constructor; [apply H | apply IH, H].
@@ -62,7 +65,14 @@ Proof.
 Qed.
 
 Lemma wf_seq_iff l : wf (VSeq l) <-> Forall wf l.
-Proof. exact (wf_list_iff l). Qed.
+Proof.
+  cbn [wf]. split.
+  - induction l as [|x l IH]; intros H; constructor; [apply H | apply IH, H].
+  - induction 1; [exact I | split; assumption].
+Qed.
+
+Lemma wf_list_elems l : wf (VList l) -> Forall wf l.
+Proof. rewrite wf_list_iff. apply Forall_impl. tauto. Qed.
 
 Lemma closed_map_iff es : closed (VMap es) <-> Forall (fun e => closed (e_val e)) es.
 Proof.
@@ -164,8 +174,222 @@ Proof.
     apply m_set_vals; [assumption|]. intros e0 _ _. exact Hwv.
   - rewrite keys_m_set by (intros; reflexivity). repeat split; try assumption.
     apply m_set_vals; [assumption|]. intros e0 _ _. cbn [mk_entry e_val fst snd].
-    assert (Hl : Forall wf (layers_of v)).
-    { destruct v; cbn [layers_of]; try (constructor; [assumption | constructor]). now apply wf_list_iff. }
-    destruct (e_val e) eqn:Ev; try (apply wf_list_iff; constructor; [exact Hwe | exact Hl]).
+    assert (Hl : Forall (fun x => wf x /\ is_vlist x = false) (layers_of v)).
+    { destruct v; cbn [layers_of]; try (constructor; [split; [assumption | reflexivity] | constructor]). now apply wf_list_iff. }
+    destruct (e_val e) eqn:Ev; try (apply wf_list_iff; constructor; [split; [exact Hwe | reflexivity] | exact Hl]).
     apply wf_list_iff. apply Forall_app. split; [now apply wf_list_iff | exact Hl].
+Qed.
+
+(** * Mapping::merge keeps mappings well-formed *)
+Lemma mapping_merge_wf o : forall m m',
+  wf (VMap m) -> wf (VMap o) -> mapping_merge m o = Ok m' -> wf (VMap m').
+Proof.
+  unfold mapping_merge. induction o as [|e o IH]; intros m m' Hm Ho H; cbn [foldM] in H.
+  - injection H as <-. exact Hm.
+  - destruct (insert_impl m (e_key e) (e_val e) (e_const e) (e_over e)) as [m1| | |] eqn:Hi; cbn [bind] in H; try discriminate.
+    apply wf_map_iff in Ho as (Hnd & Hum & Hv). cbn [keys map] in Hnd, Hum.
+    inversion Hnd; subst. inversion Hum; subst. inversion Hv; subst.
+    apply (IH m1 m'); [|apply wf_map_iff; repeat split; assumption | exact H].
+    eapply insert_wf; eauto.
+Qed.
+
+Definition top_ok (v : value) : Prop := is_string v = false /\ is_vlist v = false.
+
+Lemma merge_core_wf ck self other r :
+  wf self -> wf other -> merge_core ck self other = Ok r -> wf r.
+Proof.
+  intros Hs Ho. destruct self as [| b | s | s | n | es | l | l]; cbn [merge_core].
+  - intros H; injection H as <-; assumption.
+  - destruct (is_mapping other || is_sequence other); [discriminate | intros H; injection H as <-; assumption].
+  - discriminate.
+  - destruct (is_mapping other || is_sequence other); [discriminate | intros H; injection H as <-; assumption].
+  - destruct (is_mapping other || is_sequence other); [discriminate | intros H; injection H as <-; assumption].
+  - destruct other; try discriminate. unfold rmap.
+    destruct (mapping_merge es es0) as [m'| | |] eqn:E; cbn [bind]; try discriminate.
+    intros H; injection H as <-. exact (mapping_merge_wf es0 es m' Hs Ho E).
+  - destruct other; try discriminate. intros H; injection H as <-.
+    apply wf_seq_iff. apply Forall_app. split; now apply wf_seq_iff.
+  - discriminate.
+Qed.
+
+Lemma merge_core_top ck self other r :
+  top_ok other -> merge_core ck self other = Ok r -> top_ok r.
+Proof.
+  intros Ho. destruct self as [| b | s | s | n | es | l | l]; cbn [merge_core].
+  - intros H; injection H as <-; assumption.
+  - destruct (is_mapping other || is_sequence other); [discriminate | intros H; injection H as <-; assumption].
+  - discriminate.
+  - destruct (is_mapping other || is_sequence other); [discriminate | intros H; injection H as <-; assumption].
+  - destruct (is_mapping other || is_sequence other); [discriminate | intros H; injection H as <-; assumption].
+  - destruct other; try discriminate. unfold rmap. destruct (mapping_merge es es0); cbn [bind]; try discriminate.
+    intros H; injection H as <-. split; reflexivity.
+  - destruct other; try discriminate. intros H; injection H as <-. split; reflexivity.
+  - discriminate.
+Qed.
+
+(** merge_core panics only on a String / ValueList target *)
+Lemma merge_core_no_panic ck self other s :
+  top_ok self -> merge_core ck self other <> Panic s.
+Proof.
+  intros [H1 H2]. destruct self as [| b | s0 | s0 | n | es | l | l]; cbn in *; try discriminate.
+  - destruct (is_mapping other || is_sequence other); discriminate.
+  - destruct (is_mapping other || is_sequence other); discriminate.
+  - destruct (is_mapping other || is_sequence other); discriminate.
+  - destruct other; try discriminate. unfold rmap.
+    destruct (merge_total es0 es) as [[m' ->] | [k ->]]; cbn; discriminate.
+  - destruct other; discriminate.
+Qed.
+
+(** * flattened *)
+Lemma flattened_list_fold ck l : forall base,
+  flattened ck (VList l) = Ok base -> True.
+Proof. trivial. Qed.
+
+(** the loop of flattened on a ValueList, as a top-level function *)
+Fixpoint flat_fold (ck : string) (l : list value) (base : value) : res value :=
+  match l with
+  | [] => Ok base
+  | x :: xs =>
+      b' <- (if is_null x then Ok VNull
+             else x' <- (match x with VList _ => flattened ck x | _ => Ok x end) ;;
+                  merge_core ck base x') ;;
+      flat_fold ck xs b'
+  end.
+
+Lemma flattened_vlist ck l : flattened ck (VList l) = flat_fold ck l VNull.
+Proof.
+  cbn [flattened]. generalize VNull at 2 3. induction l as [|x l IH]; intros base; cbn [flat_fold]; [reflexivity|].
+  destruct (is_null x); cbn [bind]; [apply IH|].
+  destruct (match x with VList _ => flattened ck x | _ => Ok x end); cbn [bind]; try reflexivity.
+  destruct (merge_core ck base a); cbn [bind]; try reflexivity. apply IH.
+Qed.
+
+Fixpoint flat_entries (ck : string) (es : list entry) (acc : mapping) : res mapping :=
+  match es with
+  | [] => Ok acc
+  | (k, v, c, o) :: es' =>
+      fv <- flattened ck v ;;
+      acc' <- insert_impl acc k fv c o ;;
+      flat_entries ck es' acc'
+  end.
+
+Lemma flattened_vmap ck es : flattened ck (VMap es) = rmap VMap (flat_entries ck es []).
+Proof.
+  cbn [flattened]. f_equal. generalize (@nil entry). induction es as [|[[[k v] c] o] es IH]; intros acc; cbn [flat_entries]; [reflexivity|].
+  destruct (flattened ck v); cbn [bind]; try reflexivity.
+  destruct (insert_impl acc k a c o); cbn [bind]; try reflexivity. apply IH.
+Qed.
+
+Fixpoint flat_seq (ck : string) (s : list value) : res (list value) :=
+  match s with
+  | [] => Ok []
+  | x :: xs => y <- flattened ck x ;; ys <- flat_seq ck xs ;; Ok (y :: ys)
+  end.
+
+Lemma flattened_vseq ck s : flattened ck (VSeq s) = rmap VSeq (flat_seq ck s).
+Proof.
+  cbn [flattened]. f_equal. induction s as [|x s IH]; cbn [flat_seq]; [reflexivity|].
+  destruct (flattened ck x); cbn [bind]; try reflexivity. rewrite IH. reflexivity.
+Qed.
+
+(** flattening closed, well-formed data is the identity *)
+Lemma flattened_closed_id ck : forall v, closed v -> wf v -> flattened ck v = Ok v.
+Proof.
+  induction v as [| | | | | es IH | vs IH | vs IH] using value_ind'; intros Hc Hw; try reflexivity; try (destruct Hc).
+  - rewrite flattened_vmap.
+    apply closed_map_iff in Hc. apply wf_map_iff in Hw as (Hnd & Hum & Hv).
+    assert (G : forall acc, NoDup (keys acc ++ keys es) -> flat_entries ck es acc = Ok (acc ++ es)).
+    { clear Hnd. induction es as [|[[[k v] c] o] es IHes]; intros acc Hn; cbn [flat_entries]; [now rewrite app_nil_r|].
+      inversion IH as [|? ? [_ Hx] IHr]; subst. inversion Hc; subst. inversion Hv; subst. inversion Hum; subst.
+      cbn [e_val fst snd] in *. rewrite Hx by assumption. cbn [bind].
+      assert (Ha : m_find (stripped k) acc = None).
+      { destruct (unmarked_stripped k) as [-> _]; [assumption|]. apply m_find_none_keys.
+        cbn [keys map e_key fst] in Hn. apply NoDup_remove_2 in Hn. intros Hin. apply Hn, in_or_app. now left. }
+      rewrite (insert_absent _ _ _ _ _ Ha). cbn [bind].
+      destruct (unmarked_stripped k) as [-> ->]; [assumption|]. cbn [is_pconst is_pover orb].
+      rewrite IHes; try assumption.
+      - now rewrite <- app_assoc.
+      - unfold keys in *. rewrite map_app, <- app_assoc. exact Hn. }
+    rewrite (G []); [reflexivity | exact Hnd].
+  - rewrite flattened_vseq. apply closed_seq_iff in Hc. apply wf_seq_iff in Hw.
+    assert (G : flat_seq ck vs = Ok vs).
+    { induction vs as [|x vs IHvs]; [reflexivity|]. cbn [flat_seq].
+      inversion IH; subst. inversion Hc; subst. inversion Hw; subst.
+      rewrite H1 by assumption. cbn [bind]. rewrite IHvs by assumption. reflexivity. }
+    now rewrite G.
+Qed.
+
+(** flattened keeps well-formedness, never yields a ValueList at the top, and a String only
+    from a String *)
+Lemma flattened_wf ck : forall v v', wf v -> flattened ck v = Ok v' -> wf v' /\ is_vlist v' = false.
+Proof.
+  induction v as [| | | | | es IH | vs IH | vs IH] using value_ind'; intros v' Hw H;
+    try (cbn in H; injection H as <-; split; [exact I | reflexivity]); try discriminate.
+  - rewrite flattened_vmap in H. unfold rmap in H.
+    destruct (flat_entries ck es []) as [m'| | |] eqn:E; cbn [bind] in H; try discriminate.
+    injection H as <-. split; [|reflexivity].
+    apply wf_map_iff in Hw as (Hnd & Hum & Hv).
+    assert (G : forall es' acc m2, (forall e, In e es' -> In e es) -> Forall unmarked (keys es') -> wf (VMap acc) ->
+                flat_entries ck es' acc = Ok m2 -> wf (VMap m2)).
+    { induction es' as [|[[[k v] c] o] es' IHes]; intros acc m2 Hsub Hum' Ha H; cbn [flat_entries] in H.
+      - injection H as <-; exact Ha.
+      - destruct (flattened ck v) as [fv| | |] eqn:Ef; cbn [bind] in H; try discriminate.
+        destruct (insert_impl acc k fv c o) as [acc'| | |] eqn:Ei; cbn [bind] in H; try discriminate.
+        assert (Hin : In (k, v, c, o) es) by (apply Hsub; now left).
+        rewrite Forall_forall in IH, Hv. destruct (IH _ Hin) as [_ Hx]. cbn [e_val fst snd] in Hx.
+        inversion Hum' as [|? ? Hk Hum'']; subst.
+        apply (IHes acc' m2); [intros; apply Hsub; now right | exact Hum'' | | exact H].
+        eapply insert_wf; [exact Ha | apply (Hx fv); [apply (Hv _ Hin) | exact Ef] | exact Hk | exact Ei]. }
+    apply (G es [] m'); [auto | exact Hum | | exact E]. apply wf_map_iff. repeat split; constructor.
+  - rewrite flattened_vseq in H. unfold rmap in H.
+    destruct (flat_seq ck vs) as [l| | |] eqn:E; cbn [bind] in H; try discriminate.
+    injection H as <-. split; [|reflexivity]. apply wf_seq_iff. apply wf_seq_iff in Hw.
+    revert l E. induction vs as [|x vs IHvs]; intros l E; cbn [flat_seq] in E; [injection E as <-; constructor|].
+    inversion IH as [|? ? Hx IHr]; subst. inversion Hw as [|? ? Hwx Hwr]; subst.
+    destruct (flattened ck x) as [y| | |] eqn:Ey; cbn [bind] in E; try discriminate.
+    destruct (flat_seq ck vs) as [ys| | |] eqn:Eys; cbn [bind] in E; try discriminate.
+    injection E as <-. constructor; [apply (proj1 (Hx y Hwx eq_refl)) | apply IHvs; auto].
+  - rewrite flattened_vlist in H. apply wf_list_elems in Hw.
+    assert (G : forall base r, wf base -> is_vlist base = false -> flat_fold ck vs base = Ok r -> wf r /\ is_vlist r = false).
+    { clear H. induction vs as [|x vs IHvs]; intros base r Hb Hbl Hf; cbn [flat_fold] in Hf; [injection Hf as <-; split; assumption|].
+      inversion IH as [|? ? Hx IHr]; subst. inversion Hw as [|? ? Hwx Hwr]; subst.
+      destruct (is_null x) eqn:En; cbn [bind] in Hf.
+      - apply (IHvs IHr Hwr VNull r); [exact I | reflexivity | exact Hf].
+      - destruct (match x with VList _ => flattened ck x | _ => Ok x end) as [x'| | |] eqn:Ex; cbn [bind] in Hf; try discriminate.
+        assert (Hx' : wf x' /\ is_vlist x' = false).
+        { destruct x; try (injection Ex as <-; split; [assumption | reflexivity]). apply (Hx x'); assumption. }
+        destruct (merge_core ck base x') as [b'| | |] eqn:Em; cbn [bind] in Hf; try discriminate.
+        apply (IHvs IHr Hwr b' r); [eapply merge_core_wf; [exact Hb | apply Hx' | exact Em] | | exact Hf].
+        destruct Hx' as [_ Hxl]. clear - Em Hbl Hxl.
+        destruct base; cbn [merge_core] in Em; try discriminate;
+          try (injection Em as <-; assumption);
+          try (destruct (is_mapping x' || is_sequence x'); [discriminate | injection Em as <-; assumption]).
+        + destruct x'; try discriminate. unfold rmap in Em. destruct (mapping_merge es es0); cbn in Em; try discriminate. now injection Em as <-.
+        + destruct x'; try discriminate. now injection Em as <-. }
+    apply (G VNull v'); [exact I | reflexivity | exact H].
+Qed.
+
+Lemma value_merge_wf ck self other r :
+  wf self -> wf other -> value_merge ck self other = Ok r -> wf r.
+Proof.
+  intros Hs Ho. unfold value_merge. destruct (is_null other); [intros H; injection H as <-; exact I|].
+  destruct (is_vlist other) eqn:El.
+  - destruct (flattened ck other) as [o'| | |] eqn:Ef; cbn [bind]; try discriminate.
+    intros H. destruct (flattened_wf ck other o' Ho Ef) as [Ho' _].
+    exact (merge_core_wf ck self o' r Hs Ho' H).
+  - cbn [bind]. intros H. exact (merge_core_wf ck self other r Hs Ho H).
+Qed.
+
+Lemma value_merge_top ck self other r :
+  top_ok other -> value_merge ck self other = Ok r -> top_ok r.
+Proof.
+  intros [Hs Hl]. unfold value_merge. destruct (is_null other); [intros H; injection H as <-; split; reflexivity|].
+  rewrite Hl. cbn [bind]. apply merge_core_top. split; assumption.
+Qed.
+
+Lemma value_merge_no_panic ck self other s :
+  top_ok self -> top_ok other -> value_merge ck self other <> Panic s.
+Proof.
+  intros Hs [_ Hl]. unfold value_merge. destruct (is_null other); [discriminate|]. rewrite Hl. cbn [bind].
+  apply merge_core_no_panic, Hs.
 Qed.
